@@ -13,7 +13,7 @@ if ! git apply ${MUT_REVERSE:+-R} "$patch" 2>/tmp/mut_apply.err; then echo "PATC
 if ! go build ./... 2>/tmp/mut_build.err; then echo "DOES-NOT-COMPILE $(basename $patch)"; exit 2; fi
 if ! go test -count=1 ./... >/tmp/mut_test.out 2>&1; then echo "BASELINE-TESTS-FAIL $(basename $patch): $(grep -m1 -- '--- FAIL' /tmp/mut_test.out)"; exit 2; fi
 for p in "$@"; do
-  out=$(VERIF_RUNS=${MUT_RUNS:-} /verif/run.sh $p quick 2>&1); code=$?
+  out=$(VERIF_EVIDENCE_DIR=/tmp/mut-evidence VERIF_RUNS=${MUT_RUNS:-} /verif/run.sh $p quick 2>&1); code=$?
   case $code in
     1) echo "KILLED   $p $(basename $patch): $(echo "$out" | grep -m1 '^violation:' | cut -c1-220)";;
     0) echo "SURVIVED $p $(basename $patch)";;
